@@ -3,6 +3,8 @@
  */
 
 #include <ctype.h>
+#include <errno.h>
+#include <math.h>
 #include <stdlib.h>
 
 #include "convert.h"
@@ -30,6 +32,7 @@ extern int mpt_cfloat(float *val, const char *src, const float range[2])
 	if (!*src) {
 		return 0;
 	}
+	errno = 0;
 	tmp = strtof(src, &end);
 	
 	if (end == src) {
@@ -40,6 +43,10 @@ extern int mpt_cfloat(float *val, const char *src, const float range[2])
 			}
 		}
 		return 0;
+	}
+	/* finite value exceeds range of type */
+	if (errno == ERANGE && (tmp == HUGE_VALF || tmp == -HUGE_VALF)) {
+		return MPT_ERROR(BadValue);
 	}
 	if (range && (range[0] > tmp || tmp > range[1])) {
 		return MPT_ERROR(BadValue);
